@@ -239,6 +239,14 @@ func adjacencyFamily() []*Ast {
 		cat(rep(mixed('s', ','), 1, -1, false), &Ast{Kind: AClass, Items: []ClassItem{{Lo: ' ', Hi: ' '}}}),
 		cat(rep(mixed('w', '.'), 0, -1, true), az(), lit('.')), cat(rep(mixed('W', 'a'), 1, -1, false), mixed('w')),
 	)
+	// a counted group whose body is a literal followed by something that is not (what may be said about the text a
+	// match starts with stops at the first non-literal of the FIRST iteration)
+	dgt := func() *Ast { return &Ast{Kind: AClass, Items: []ClassItem{{Lo: '0', Hi: '9'}}} }
+	nc := func(a *Ast) *Ast { return &Ast{Kind: ANonCap, Kids: []*Ast{a}} }
+	out = append(out,
+		rep(nc(cat(lit('a'), dgt())), 2, 2, false), rep(grp(cat(lit('a'), &Ast{Kind: ADot})), 3, 3, false), rep(nc(alt(cat(lit('a'), lit('b')), cat(lit('a'), lit('c')))), 2, 2, false),
+		cat(rep(nc(cat(lit('a'), dgt())), 2, 3, false), lit('z')), rep(nc(cat(lit('a'), lit('b'), dgt())), 2, -1, true), cat(rep(grp(cat(lit('a'), rep(lit('b'), 0, 1, false))), 2, 2, false), lit('a')),
+	)
 	// an anchor first or last next to a literal (the candidate-position filters of both scan directions key on them)
 	for _, an := range []string{"^", "$", `\A`, `\z`, `\Z`, `\b`, `\B`} {
 		a := func() *Ast { return &Ast{Kind: AAnchor, Name: an} }
